@@ -271,6 +271,8 @@ def check_tree_memo(run, program, method, slot, cls_name, rule_prefix="F-CACHE")
             t = n.test
             vals = t.values if isinstance(t, ast.BoolOp) else [t]
             for v in vals:
+                if isinstance(v, ast.UnaryOp) and isinstance(v.op, ast.Not):
+                    v = v.operand      # `not reconstruct` in a reuse test is the same dependence as `reconstruct` in a rebuild test
                 if isinstance(v, ast.Name) and v.id in params:
                     forcing.add(v.id)
     run.stats.setdefault("memo_tables", {})[method] = {"P": sorted(P), "K": sorted(compared | forcing)}
